@@ -14,10 +14,32 @@ use serde::{Deserialize, Serialize};
 #[derive(Clone, Debug, Serialize, Deserialize)]
 pub enum Case {
     Hist(History),
+    /// the same history with slightly inaccurate LP answers (fault hook): every `every`-th LP call returns its
+    /// optimal point moved outside one row by 10^-(4+exp%4) raw distance, which is what sends the library
+    /// through its witness-repair branch (mirror_points) before anything is cached
+    HistPerturbed { h: History, every: u8, exp: u8 },
     Mirror { p: PolySpec, starts: Vec<PointSpec>, iters: u8 },
 }
 
 pub struct C05;
+
+fn run_hist_perturbed(h: &History, every: u8, exp: u8, ctx: &mut Ctx) -> CaseResult {
+    use affinitree::linalg::polyhedron::verif_hook as hook;
+    let every = 1 + (every % 4) as usize;
+    let eps = 10f64.powi(-(4 + (exp as i32 % 4)));
+    let mut plan = std::collections::BTreeMap::new();
+    for i in (0..4000usize).step_by(every) {
+        plan.insert(i, hook::Fault::Perturb { row: i / every, eps });
+    }
+    hook::reset();
+    hook::set_plan(plan);
+    ctx.class("history_with_perturbed_lp_answers");
+    let r = run_hist(h, ctx);
+    let log = hook::take_log();
+    hook::reset();
+    ctx.count("perturbed_lp_answers", log.iter().filter(|r| r.fault.is_some() && r.changed).count() as u64);
+    r
+}
 
 fn run_hist(h: &History, ctx: &mut Ctx) -> CaseResult {
     let mut st = init(h)?;
@@ -119,18 +141,25 @@ impl Property for C05 {
         vec!["containment tolerance 1e-8 on the raw distance (documented for contains()) plus 1e-12 relative for the rounding of a.w".into(), "a plain Feasible mark carries no obligation (it can only cause less pruning)".into()]
     }
     fn cases(&self, tier: Tier) -> usize {
-        tier.pick(6000, 80_000)
+        tier.pick(20000, 120_000)
     }
     fn strategy(&self, tier: Tier) -> BoxedStrategy<Case> {
         let w = OpWeights { apply: 2, compose_unpruned: 4, compose_pruned: 4, eliminate: 6, reduce: 3, arith_tree: 3, arith_aff: 1 };
         let mirror = (1usize..=4)
             .prop_flat_map(|n| (poly_spec(n, 1, 6), proptest::collection::vec(point_spec(n), 1..5), any::<u8>()))
             .prop_map(|(p, starts, iters)| Case::Mirror { p, starts, iters });
-        prop_oneof![1 => history(w, tier.pick(8, 14)).prop_map(Case::Hist), 2 => mirror].boxed()
+        let pert = (history(w, tier.pick(8, 14)), any::<u8>(), any::<u8>()).prop_map(|(h, every, exp)| Case::HistPerturbed { h, every, exp });
+        prop_oneof![2 => history(w, tier.pick(8, 14)).prop_map(Case::Hist), 1 => pert, 4 => mirror].boxed()
     }
     fn run(&self, case: &Case, ctx: &mut Ctx) -> CaseResult {
         match case {
-            Case::Hist(h) => run_hist(h, ctx),
+            Case::Hist(h) => {
+                #[allow(unused_imports)]
+                use affinitree::linalg::polyhedron::verif_hook as hook;
+                hook::reset();
+                run_hist(h, ctx)
+            }
+            Case::HistPerturbed { h, every, exp } => run_hist_perturbed(h, *every, *exp, ctx),
             Case::Mirror { p, starts, iters } => run_mirror(p, starts, *iters, ctx),
         }
     }
